@@ -92,18 +92,30 @@ func (drap *draPlugin) restoreAllClaims() {
 		log.InfraLogger.Errorf("Failed to list resource claims for state reconciliation: %v", err)
 		return
 	}
-	// The allocated-device set behind the assume-cache is a plain set that is updated claim by claim: restoring a
-	// claim that loses its assumed allocation removes its devices, restoring one that gets its informer allocation
-	// back adds them. A device that moved between two claims since the last session (the victim's claim was
-	// deallocated and the preemptor's claim was given its device) must be removed before it is added, otherwise it
-	// ends up missing from the set although the victim still holds it. So: first the claims that are allocated in
-	// the cache, then the ones that are not.
-	for _, allocatedInCache := range []bool{true, false} {
-		for _, claim := range claims {
-			if (claim.Status.Allocation != nil) == allocatedInCache {
-				drap.manager.ResourceClaims().AssumedClaimRestore(claim.Namespace, claim.Name)
-			}
+	// The allocated-device set behind the assume-cache is a plain set that follows the claims one transition at a
+	// time: it drops a claim's devices when the claim loses its allocation, adds them when it gains one, and ignores
+	// a claim that goes from one allocation to another. Between two sessions a device may have moved from one claim to
+	// another (victim deallocated, preemptor nominated on its device), the informer may already have re-added the
+	// victim's devices (any update of the claim object), and an assumed allocation may differ from the informer's.
+	// Whatever the order, the set is right only if every device is removed before anything is added. So first release
+	// every allocation the cache holds, then restore every claim to its informer object.
+	//
+	// In-flight allocations (signalled below for the bind requests that are still pending) are withdrawn as well:
+	// nothing else ever withdraws them, and a device of a bind request that is long gone would stay taken for ever.
+	for _, claim := range claims {
+		drap.manager.ResourceClaims().RemoveClaimPendingAllocation(claim.UID)
+		if claim.Status.Allocation == nil {
+			continue
 		}
+		released := claim.DeepCopy()
+		released.Status.Allocation = nil
+		if err := drap.manager.ResourceClaims().AssumeClaimAfterAPICall(released); err != nil {
+			log.InfraLogger.Errorf("Failed to release the cached allocation of resource claim %s/%s: %v",
+				claim.Namespace, claim.Name, err)
+		}
+	}
+	for _, claim := range claims {
+		drap.manager.ResourceClaims().AssumedClaimRestore(claim.Namespace, claim.Name)
 	}
 	log.InfraLogger.V(4).Infof("Restored %d resource claims to informer state", len(claims))
 }
